@@ -32,7 +32,7 @@ Honest(L) == [i \in 1..L |-> [by |-> i, key |-> i, ctx |-> "a", covers |-> L - i
 Ops == {"none", "transit", "mutbody", "mutsig", "wrongpeer", "replayold",
         "outerflip", "outersigflip", "stripouter",
         "innerflip", "innersigflip", "splicetime", "spliceorigin", "reattribute", "forgeknown", "duprec", "reorder",
-        "skipto", "claimdirect", "renew", "wraptwice"}
+        "skipto", "claimdirect", "renew", "wraptwice", "handover"}
 NeedsDepth(op) == op \in {"innerflip", "innersigflip", "splicetime", "spliceorigin", "reattribute", "forgeknown", "duprec", "reorder", "skipto"}
 
 (* The chain the victim receives and who delivers it, per operator.  `d` is the depth (2..L) of the     *)
@@ -40,6 +40,11 @@ NeedsDepth(op) == op \in {"innerflip", "innersigflip", "splicetime", "spliceorig
 Fresh1(n) == [by |-> 1, key |-> 1, ctx |-> "a", covers |-> n, intact |-> TRUE]   \* adversary's new outer record over n records
 Tamper(L, d, f(_)) == [i \in 1..L |-> IF i = 1 THEN Fresh1(L - 1) ELSE IF i = d THEN f(Honest(L)[i]) ELSE Honest(L)[i]]
 
+(* "handover": a copy of the announcement with a GENUINE suffix d..L of its chain (d = 1: the whole chain, d = L + 1: no     *)
+(* record at all; nothing is altered, every signature verifies) is handed to the victim by a peer p of its own choosing  *)
+(* among the routers the victim peers with: the origin itself (the victim has a link of its own to it), any forwarder     *)
+(* named in the chain (ditto), or the uninvolved other peer.  Only the peer that signed the outermost attached record     *)
+(* (the origin when nothing is attached) may deliver it.                                                                  *)
 Received(L, op, d) ==
   CASE op \in {"none", "transit", "mutbody", "mutsig", "wrongpeer", "replayold"} -> Honest(L)
     [] op = "outerflip" -> [Honest(L) EXCEPT ![1].intact = FALSE]
@@ -62,52 +67,55 @@ Received(L, op, d) ==
          [i \in 1..(L + 1) |-> IF i = 1 THEN Fresh1(L) ELSE IF i = 2 THEN Fresh1(L - 1) ELSE Honest(L)[i - 1]]
     [] op = "skipto" -> <<Fresh1(L - d + 1)>> \o SubSeq(Honest(L), d, L)               \* own fresh record + genuine suffix
     [] op = "claimdirect" -> <<Fresh1(0)>>                                            \* own fresh record, nothing below
+    [] op = "handover" -> SubSeq(Honest(L), d, L)
     [] op = "renew" -> \* honest: the route is already installed from an earlier announcement whose outer record carried other
                        \* labels / another delay (same total); this is the NEWER announcement with the forwarder's fresh record
          [i \in 1..L |-> IF i = 1 THEN Fresh1(L - 1) ELSE Honest(L)[i]]
 
-Deliverer(L, op) == IF op = "wrongpeer" THEN OtherPeer ELSE IF L = 0 THEN Origin ELSE 1
+Deliverer(L, op, p) == IF op = "handover" THEN p ELSE IF op = "wrongpeer" THEN OtherPeer ELSE IF L = 0 THEN Origin ELSE 1
 
 (* Implementation level: what the code checks, in its order. *)
 SigOK(ch, i) == /\ ch[i].key = ch[i].by /\ ch[i].ctx = "a" /\ ch[i].intact
                 /\ ch[i].covers = Len(ch) - i
                 /\ (i < Len(ch) => TRUE)
-ImplAccept(L, op, d) ==
+ImplAccept(L, op, d, p) ==
   LET ch == Received(L, op, d)
   IN /\ op \notin {"mutbody", "mutsig", "replayold"}          \* origin signature / strict time sequence
      /\ \A i \in 1..Len(ch) : SigOK(ch, i)
-     /\ (Len(ch) = 0 => Deliverer(L, op) = Origin)
-     /\ (Len(ch) > 0 => ch[1].by = Deliverer(L, op))
+     /\ (Len(ch) = 0 => Deliverer(L, op, p) = Origin)
+     /\ (Len(ch) > 0 => ch[1].by = Deliverer(L, op, p))
 
 (* Property level: every named router signed its hop for this very announcement, nesting intact,        *)
 (* delivering peer is the outermost signer (or the origin).                                             *)
 Genuine(r, L) == \E i \in 1..L : r = Honest(L)[i]
 OwnFresh(r) == r.by = 1 /\ r.key = 1 /\ r.ctx = "a" /\ r.intact
-PropAccept(L, op, d) ==
+PropAccept(L, op, d, p) ==
   LET ch == Received(L, op, d)
   IN /\ op \notin {"mutbody", "mutsig", "replayold"}
      /\ \A i \in 1..Len(ch) : (Genuine(ch[i], L) \/ (i <= (IF op = "wraptwice" THEN 2 ELSE 1) /\ OwnFresh(ch[i]))) /\ ch[i].covers = Len(ch) - i
-     /\ (Len(ch) = 0 => Deliverer(L, op) = Origin)
-     /\ (Len(ch) > 0 => ch[1].by = Deliverer(L, op))
+     /\ (Len(ch) = 0 => Deliverer(L, op, p) = Origin)
+     /\ (Len(ch) > 0 => ch[1].by = Deliverer(L, op, p))
 Path(L, op, d) == [i \in 1..Len(Received(L, op, d)) |-> Received(L, op, d)[i].by]
 
 Init == phase = "start" /\ act = [name |-> "init"]
 (* seen = TRUE: the victim has already processed the genuine announcement (same stamp): a copy is then  *)
 (* an "immediate duplicate", which the code tolerates for hop pings - the rule for forgeries is the same. *)
-Case(L, op, d, seen) ==
+Case(L, op, d, seen, p) ==
   /\ phase = "start" /\ phase' = "done"
   /\ (seen => op # "replayold")
-  /\ (NeedsDepth(op) => d \in 2..L) /\ (~NeedsDepth(op) => d = 0)
+  /\ (NeedsDepth(op) => d \in 2..L) /\ (~NeedsDepth(op) /\ op # "handover" => d = 0)
+  /\ (op = "handover" => L >= 1 /\ d \in 1..(L + 1) /\ p \in (1..L) \cup {Origin, OtherPeer})
+  /\ (op # "handover" => p = 0)
   /\ (op \in {"outerflip", "outersigflip", "stripouter", "claimdirect", "renew", "wraptwice"} => L >= 1)
   /\ (op = "wraptwice" => ~seen)
   /\ (op = "renew" => ~seen)
   /\ (op = "reorder" => d < L)
   /\ (op = "forgeknown" => d = 2)       \* directly below the adversary's own record: nothing else in the chain is disturbed
   /\ act' = [name |-> "case", len |-> L, op |-> op, depth |-> d, seen |-> seen,
-             accept |-> ImplAccept(L, op, d), propaccept |-> PropAccept(L, op, d),
-             path |-> IF PropAccept(L, op, d) THEN Path(L, op, d) ELSE <<>>,
-             via |-> Deliverer(L, op)]
-Next == phase = "start" /\ \E L \in 0..MaxLen, op \in Ops, d \in 0..MaxLen, seen \in BOOLEAN : Case(L, op, d, seen)
+             accept |-> ImplAccept(L, op, d, p), propaccept |-> PropAccept(L, op, d, p),
+             path |-> IF PropAccept(L, op, d, p) THEN Path(L, op, d) ELSE <<>>,
+             via |-> Deliverer(L, op, p), peer |-> p]
+Next == phase = "start" /\ \E L \in 0..MaxLen, op \in Ops, d \in 0..(MaxLen + 1), seen \in BOOLEAN, p \in 0..9 : Case(L, op, d, seen, p)
 Spec == Init /\ [][Next]_vars
 
 Agree == act.name = "case" => (act.accept <=> act.propaccept)
